@@ -65,7 +65,32 @@ func c08Prop(rt *rapid.T, rec *ev.Recorder, maxBlocks int) {
 		fatal(rt, "open: %v", err)
 	}
 	defer func() { S.close() }()
-	for _, b := range hist {
+	// a client may ask for a proof against a root this node has not recorded yet (it learned the root from a node that is
+	// ahead); whatever the node answers then, it must serve the right proof once it has recorded the root
+	future := worldOf(k, hist)
+	early := rapid.IntRange(0, len(hist)).Draw(rt, "earlyRequestsAfterBlock")
+	for bi, b := range hist {
+		if bi == early && rapid.IntRange(0, 2).Draw(rt, "earlyRequests") == 0 {
+			switch kind {
+			case "exit":
+				for q := 0; q < 4 && len(future.exitRoots) > 0; q++ {
+					i := rapid.IntRange(0, len(future.exitRoots)-1).Draw(rt, "earlyRoot")
+					_, _ = S.br.GetProof(bg, uint32(rapid.IntRange(0, i).Draw(rt, "earlyPos")), future.exitRoots[i])
+				}
+			case "l1info":
+				for q := 0; q < 4 && len(future.infoRoots) > 0; q++ {
+					i := rapid.IntRange(0, len(future.infoRoots)-1).Draw(rt, "earlyRoot")
+					_, _ = S.l1.GetL1InfoTreeMerkleProofFromIndexToRoot(bg, uint32(rapid.IntRange(0, i).Draw(rt, "earlyPos")), future.infoRoots[i])
+				}
+			default:
+				for _, v := range future.rollupHist {
+					for id := range v.Leaves {
+						_, _ = S.l1.GetRollupExitTreeMerkleProof(bg, id, v.Root)
+					}
+				}
+			}
+			rec.Class("with_requests_against_roots_not_recorded_yet")
+		}
 		if err := S.process(b); err != nil {
 			fatal(rt, "store refused valid block %s: %v", b.brief(), err)
 		}
